@@ -117,4 +117,9 @@ def run_case(c, stats):
             stats.cls("tag:" + t)
         nt = len(ref.trans) >= 2 and not ref.is_empty() and not rn.complement(ref).is_empty()
     call(fa.to_regex)
+    if c.get("edits"):
+        gfa.apply_edits(fa, c)
+        stats.cls("edited")
+        call(fa.to_regex)
+        call(fa.to_regex)
     return nt
